@@ -94,7 +94,7 @@ ComputeStep(vm, g, C) ==
   IF kids.k # "ok" THEN Fail(vm, g, kids.c)
   ELSE IF Len(vm.mem) + Len(kids.acc.mem) > MemLimit THEN Fail(vm, g, "memory overflow")
   ELSE LET total == IF ChildGasShared THEN kids.acc.gas ELSE g + kids.acc.gas IN
-       IF total > GasMax THEN Fail(vm, g, "gas overflow")
+       IF total > GasMax \/ total > C.limit THEN Fail(vm, g, "out of gas at the join")
        ELSE Done([vm EXCEPT !.st = rest, !.mem = vm.mem \o kids.acc.mem,
                             !.pc = kids.acc.pc, !.halt = kids.acc.halt], total)
 
